@@ -948,6 +948,10 @@ class ktensor:
             i_min = np.argmin(sum_of_prods) + 1  # note range above starts at 1
             return i_min
 
+        if self.ncomponents == 0:
+            # an empty sum of rank-one terms: the zero tensor (khatrirao cannot infer
+            # its row count from a matrix without columns)
+            return ttb.tensor(np.zeros(self.shape, order=self.order), self.shape)
         if self.ndims == 1:
             # no split point exists for a single mode: sum_r weights[r] * A[:, r]
             return ttb.tensor(
